@@ -1,2 +1,66 @@
-(* C12 statements; proofs in Proofs/. *)
-From BaoV Require Import Model.Tree Spec.NodeSpec.
+(* C12 - stored hash pairs have unique, dense, order-consistent slots.  Statements only; proofs in Proofs/. *)
+From BaoV Require Import Model.Iter Spec.NodeSpec Proofs.ShapeBase Proofs.ShapeIter Proofs.ShapeOffsets Proofs.ShapePos Proofs.ShapePre Proofs.ShapePost Proofs.ShapeList.
+From Coq Require Import Permutation.
+
+(* the stack-free pre-order node iterator lists exactly the nodes of the recursive Shape *)
+Theorem C12_pre_nodes : forall size bs, size <= 2 ^ 63 -> bs <= 10 ->
+  pre_order_nodes_iter (mkTree size bs) = sp_pre_nodes size bs.
+Proof. exact pre_nodes_spec. Qed.
+Print Assumptions C12_pre_nodes.
+
+Theorem C12_post_nodes : forall size bs, size <= 2 ^ 63 -> bs <= 10 ->
+  post_order_nodes_iter (mkTree size bs) = sp_post_nodes size bs.
+Proof. exact post_nodes_spec. Qed.
+Print Assumptions C12_post_nodes.
+
+(* nodes below the block level have no slot in either outboard *)
+Theorem C12_below_block : forall size bs nd, level nd < bs ->
+  pre_order_offset (mkTree size bs) nd = None /\ post_order_offset (mkTree size bs) nd = None.
+Proof. exact below_block. Qed.
+Print Assumptions C12_below_block.
+
+(* stored nodes get the slots 0, 1, 2, ... of the pre-order outboard in traversal order *)
+Theorem C12_pre_offsets : forall size bs, size <= 2 ^ 63 -> bs <= 10 ->
+  map (pre_order_offset (mkTree size bs)) (filter (sp_persisted size bs) (sp_pre_nodes size bs)) =
+  map (fun i => Some (N.of_nat i)) (seq 0 (N.to_nat (sp_blocks size bs - 1))).
+Proof. exact pre_offsets_spec. Qed.
+Print Assumptions C12_pre_offsets.
+
+Theorem C12_pre_none : forall size bs nd, size <= 2 ^ 63 -> bs <= 10 ->
+  In nd (sp_pre_nodes size bs) -> sp_persisted size bs nd = false ->
+  pre_order_offset (mkTree size bs) nd = None.
+Proof. exact pre_none_spec. Qed.
+Print Assumptions C12_pre_none.
+
+(* the same for the post-order outboard: the i-th stored node of the post-order listing has slot i *)
+Theorem C12_post_offsets : forall size bs, size <= 2 ^ 63 -> bs <= 10 ->
+  map (fun nd => option_map po_value (post_order_offset (mkTree size bs) nd))
+      (filter (sp_persisted size bs) (sp_post_nodes size bs)) =
+  map (fun i => Some (N.of_nat i)) (seq 0 (N.to_nat (sp_blocks size bs - 1))).
+Proof. exact post_offsets_spec. Qed.
+Print Assumptions C12_post_offsets.
+
+Theorem C12_post_none : forall size bs nd, size <= 2 ^ 63 -> bs <= 10 ->
+  In nd (sp_post_nodes size bs) -> sp_persisted size bs nd = false ->
+  option_map po_value (post_order_offset (mkTree size bs) nd) = None.
+Proof. exact post_none_spec. Qed.
+Print Assumptions C12_post_none.
+
+(* listed nodes are pairwise distinct, both listings have the same nodes, blocks - 1 of them are stored *)
+Theorem C12_nodes_distinct : forall size bs, size <= 2 ^ 63 -> NoDup (sp_pre_nodes size bs).
+Proof. exact pre_nodes_nodup. Qed.
+Print Assumptions C12_nodes_distinct.
+
+Theorem C12_nodes_perm : forall size bs, size <= 2 ^ 63 ->
+  Permutation (sp_pre_nodes size bs) (sp_post_nodes size bs).
+Proof. exact pre_post_perm. Qed.
+Print Assumptions C12_nodes_perm.
+
+Theorem C12_persisted_count : forall size bs, size <= 2 ^ 63 -> bs <= 10 ->
+  length (filter (sp_persisted size bs) (sp_pre_nodes size bs)) = N.to_nat (sp_blocks size bs - 1).
+Proof. exact persisted_count. Qed.
+Print Assumptions C12_persisted_count.
+
+Theorem C12_blocks : forall size bs, blocks (mkTree size bs) = sp_blocks size bs.
+Proof. exact blocks_spec. Qed.
+Print Assumptions C12_blocks.
